@@ -14,7 +14,8 @@
    alone once identifiers are named by what they denote.  The step from the theorem to the
    full statement - the two counters differ between the runs, which renames temporaries
    consistently - is covered by that comparison, not by a theorem. *)
-From VJ Require Import Model.Str Model.Json Model.Ast Model.State Model.Lower Lemmas.IndepProofs.
+From VJ Require Import Model.Str Model.Json Model.Ast Model.State Model.Lower Model.Visitor Model.Types
+  Lemmas.IndepProofs Lemmas.BalProofs Lemmas.VisitBal Lemmas.IdentityProofs.
 
 Theorem C10_reads_only_five_fields : forall E n s1 s2,
   pragma s1 = pragma s2 -> assign_left s1 = assign_left s2 ->
@@ -47,6 +48,44 @@ Proof.
   repeat split; assumption.
 Qed.
 Print Assumptions C10_attributes_stateless.
+
+(* of the five fields, two are scoped to the traversal: visiting ANY node - a statement, a
+   function, a class, other JSX - leaves no pending assignment target behind and the slot-flag
+   stack as long as before *)
+Theorem C10_traversal_restores_scoped_state : forall E hc hd,
+  (forall n s, bal s (snd (hc n s))) -> (forall n s, bal s (snd (hd n s))) ->
+  forall n m s, bal s (snd (visit E hc hd m n s)).
+Proof. intros E hc hd H1 H2 n. apply (visit_bal E hc hd H1 H2 n). Qed.
+Print Assumptions C10_traversal_restores_scoped_state.
+
+(* hence every statement of a statement list is visited in a quiet state (no pending target,
+   empty flag stack), whatever precedes it; and what follows it cannot reach back: the
+   statement's result is computed before the rest of the list is looked at *)
+Theorem C10_statements_start_quiet : forall E hc hd,
+  (forall n s, bal s (snd (hc n s))) -> (forall n s, bal s (snd (hd n s))) ->
+  forall pre x post m s,
+    quiet s ->
+    let V := visit E hc hd in
+    quiet (snd (visit_list_with V m pre s))
+    /\ fst (visit_list_with V m (pre ++ x :: post) s)
+       = fst (visit_list_with V m pre s)
+         ++ fst (V m x (snd (visit_list_with V m pre s)))
+         :: fst (visit_list_with V m post (snd (V m x (snd (visit_list_with V m pre s))))).
+Proof. intros E hc hd H1 H2 pre x post m s Q. apply (statements_start_quiet E hc hd H1 H2); exact Q. Qed.
+Print Assumptions C10_statements_start_quiet.
+
+(* the hypotheses on the resolveType hooks hold outright when the option is off (the hooks are
+   the identity); with the option on they write imports, diagnostics and the type registries
+   only - that part is covered by the correspondence, not proved *)
+Theorem C10_hooks_quiet_when_off : forall E,
+  o_resolve_type (e_opts E) = false ->
+  (forall n s, bal s (snd (hook_call E n s))) /\ (forall n s, bal s (snd (hook_declarator E n s))).
+Proof.
+  intros E H. split; intros n s.
+  - rewrite (hook_call_off E H). apply bal_refl.
+  - rewrite (hook_declarator_off E H). apply bal_refl.
+Qed.
+Print Assumptions C10_hooks_quiet_when_off.
 
 (* non-vacuity: two states that differ in everything the theorem ignores *)
 Example C10_nonvacuous :
